@@ -51,12 +51,20 @@ def gen_prog(rng):
                 elif alive:
                     o2 = rng.choice(sorted(alive))
                     prog.append(['activity', 'untag', list(o2), [c, k]])
-        elif r < 0.62:
+        elif r < 0.6 and len(alive) > 1:
+            # an activity stays pending over flushes restricted to single objects (session.flush([obj])): first another
+            # entity, then the activity's own object, which changed meanwhile; the activity is inserted by the commit
+            (c, k), (c2, k2_) = rng.sample(sorted(alive), 2)
+            prog += [['activity', 'v', [c, k], None], ['set', c2, k2_, {'a': rng.choice([3, 4])}], ['flushonly', c2, k2_]]
+            if rng.random() < 0.7:
+                prog += [['set', c, k, {'a': rng.choice([5, 6])}], ['flushonly', c, k]]
+            prog.append(['commit'])
+        elif r < 0.64:
             prog.append(['add', 3, rng.choice([1, 2]), {'a': rng.choice([0, 1])}])     # non-versioned only
-        elif r < 0.68:
+        elif r < 0.7:
             # the application edits an attribute of an activity it still holds (possibly of an earlier transaction)
             prog.append(['actset', rng.randint(0, 5), 'w%d' % rng.randint(0, 3)])
-        elif r < 0.75:
+        elif r < 0.77:
             prog.append(['flush'])
         else:
             prog.append(['commit'])
@@ -78,6 +86,10 @@ def corpus():
                                 ['actset', 0, 'w'], ['set', 0, 1, {'a': 1}], ['commit'], ['del', 0, 1], ['commit']]),
             dict(cfg=cfg, prog=[['add', 0, 1, {'a': 1}], ['flush'], ['activity', 'create', [0, 1], None], ['commit'],
                                 ['set', 0, 1, {'a': 2}], ['commit'], ['add', 3, 1, {'a': 0}], ['commit']]),
+            # an activity pending while restricted flushes write another entity and then a new version of its object
+            dict(cfg=cfg, prog=[['add', 0, 1, {'a': 1}], ['add', 0, 2, {'a': 1}], ['commit'],
+                                ['activity', 'edit', [0, 1], [0, 2]], ['set', 0, 2, {'a': 3}], ['flushonly', 0, 2],
+                                ['set', 0, 1, {'a': 5}], ['flushonly', 0, 1], ['commit'], ['set', 0, 1, {'a': 6}], ['commit']]),
             # activities about an entity whose deletion was flushed earlier in the transaction / committed before
             dict(cfg=cfg, prog=[['add', 0, 1, {'a': 1}], ['add', 0, 2, {'a': 1}], ['commit'], ['del', 0, 1], ['flush'],
                                 ['activity', 'delete', [0, 1], None], ['commit'],
